@@ -142,10 +142,10 @@ Proof.
       { destruct Hsame as (E1 & _). pose proof (in_find_block _ _ Hnd Hb) as F. rewrite E1, <- E in F.
         pose proof (in_find_block _ _ Hnd Hb0) as F0. congruence. }
       subst. auto.
-    + exists b0. split; [apply replace_block_keeps; auto|]. unfold block_same. auto.
+    + exists b0. split; [apply replace_block_keeps; auto|]. unfold block_same. auto 6.
   - intros b' Hb'. destruct (in_replace_block _ _ _ Hnd Hb') as [(-> & _)|(Hi & _)].
     + exists b. auto.
-    + exists b'. unfold block_same. auto.
+    + exists b'. unfold block_same. auto 6.
 Qed.
 
 Lemma blist_cfg_same_set_blocks l bs : blist_cfg_same l (set_blocks l bs).
@@ -164,7 +164,9 @@ Proof.
   pose proof (vi_lists _ _ _ _ HI _ _ Hg) as Hwf. pose proof (bw_nodup _ _ Hwf) as Hnd.
   split; [|split].
   - eapply VamInvU_set_equiv; eauto.
-    + apply blist_wf_replace; auto. destruct Hs as (E & _). rewrite <- E. apply in_map. auto.
+    + apply blist_wf_replace; auto.
+      * destruct Hs as (_ & _ & _ & _ & Eg). rewrite <- Eg. pose proof (bw_g _ _ Hwf) as Hbg. rewrite Forall_forall in Hbg. auto.
+      * destruct Hs as (E & _). rewrite <- E. apply in_map. auto.
     + cbn. eapply replace_equiv; eauto.
   - apply tab_frame_set_blist.
   - eapply lists_frame_set_blist; eauto. apply blist_cfg_same_set_blocks.
@@ -194,7 +196,7 @@ Proof.
   assert (Hsz : 1 <= size < 2 ^ 39) by (pose proof (heap_size_bound (type_heap c (bl_type l))); lia).
   destruct (meta_init_spec (bl_algo l) (bl_gran l) size Hsz (bw_gran _ _ Hwf)) as (M1 & M2 & M3).
   split; [|split].
-  - eapply VamInvU_add_block with (d := mkDmem mem (bl_type l) size false); eauto; cbn; auto; lia.
+  - eapply VamInvU_add_block with (d := mkDmem mem (bl_type l) size false); eauto; cbn; auto; try lia. apply meta_init_g.
   - rewrite set_blist_set_m. eapply tab_frame_trans_same; [apply tab_frame_set_blist|apply tab_frame_set_m].
   - rewrite set_blist_set_m. eapply lists_frame_trans; [|apply lists_frame_set_m].
     eapply lists_frame_set_blist; eauto. unfold blist_cfg_same. cbn. repeat split; lia.
@@ -251,6 +253,7 @@ Proof.
   destruct (meta_create_request (bk_meta b) size align (fl flags F_UPPER) sub (strategy_of flags)) as [mt1 rq| | |] eqn:Hrq;
     try (apply Hnoop; exact I).
   destruct (meta_request_spec _ _ _ _ _ _ _ _ Hmi Hal Hrq) as (Hmi1 & Hl1 & Hs1).
+  pose proof (meta_request_g _ _ _ _ _ _ _ _ Hmi Hal Hrq) as Hg1g.
   pose proof (meta_alloc_spec _ _ _ _ _ _ _ _ s Hmi Hal Hrq) as Hma.
   (* the request is stored in the block *)
   set (b1 := mkBlock (bk_id b) (bk_mem b) (bk_sm b) mt1).
@@ -307,10 +310,10 @@ Proof.
                     h (bk_mem b) SyncMem.sm_init false).
   assert (HI5 : VamInvU c (set_alloc (put_block v3 lr (mkBlock (bk_id b) (bk_mem b) s2 mt2)) s a) U X).
   { change (mkBlock (bk_id b) (bk_mem b) s2 mt2) with (mkBlock (bk_id b2) (bk_mem b2) s2 mt2).
+    pose proof (meta_alloc_g _ _ _ _ _ _ _ _ s _ _ Hmi Hal Hrq Ema) as Hg2g.
     eapply VamInvU_alloc_region with (l := l2) (b := b2) (h := h) (off := off) (l1 := la) (l2 := lb); eauto.
-    - unfold v3. cbn. unfold zlen. rewrite set_nth_z_length. fold (zlen (v_tab v2)). lia.
-    - cbn. congruence.
-    - cbn. congruence.
+    all: try (cbn; congruence).
+    unfold v3. cbn. unfold zlen. rewrite set_nth_z_length. fold (zlen (v_tab v2)). lia.
   }
   unfold af_post. change (bl_type l) with (bl_type l2). fold a.
   split; [apply VamInvU_mach_same; [exact HI5|apply add_allocation_same]|].
@@ -331,8 +334,9 @@ Qed.
 
 Lemma blist_wf_perm l bs : blist_wf c l -> Permutation.Permutation (bl_blocks l) bs -> blist_wf c (set_blocks l bs).
 Proof.
-  intros [H1 H2 H3 H4 H5 H6 H7] P. constructor; cbn; auto.
+  intros [H1 H2 H3 H4 H5 H6 H7 H8] P. constructor; cbn; auto.
   - eapply Permutation.Permutation_NoDup; [apply Permutation.Permutation_map; exact P|auto].
+  - eapply Permutation.Permutation_Forall; eauto.
   - eapply Permutation.Permutation_Forall; eauto.
   - eapply Permutation.Permutation_Forall; eauto.
 Qed.
@@ -668,6 +672,7 @@ Proof.
   (* the region is released (all blocks still there) *)
   assert (IA : VamInvU c (put_block w2 (a_lref a) b') U (s :: X)).
   { change b' with (mkBlock (bk_id b2) (bk_mem b2) s3 mt').
+    pose proof (meta_free_g (bk_meta b) (a_handle a) mt' Hmi (ex_intro _ rg (conj Hrg Hh)) Hfree) as Hgf.
     eapply VamInvU_free_region with (l := l2) (b := b2) (a := a) (l1 := la) (rg0 := rg0) (l2 := lb); eauto.
     apply Kw2. }
   assert (Hnd2 : NoDup (map bk_id (bl_blocks l2))) by (unfold l2; cbn; rewrite replace_block_ids; auto).
